@@ -38,7 +38,14 @@ func genBatches(t *rapid.T, f *fx.Fixture, cfg foreignCfg) [][]*vt.Val {
 		case 6, 7, 8:
 			n = rapid.IntRange(11, 40).Draw(t, "n")
 		default:
-			n = rapid.IntRange(41, cfg.maxRecs).Draw(t, "n")
+			lo := 41
+			if cfg.maxRecs < lo {
+				lo = 1
+			}
+			n = rapid.IntRange(lo, cfg.maxRecs).Draw(t, "n")
+		}
+		if n > cfg.maxRecs {
+			n = cfg.maxRecs
 		}
 		var recs []*vt.Val
 		for i := 0; i < n; i++ {
